@@ -51,8 +51,74 @@ def clone_layout(arr):
         return np.array(arr, copy=True)
 
 
+class SimFile:
+    """S6: an in-process binary file object handed to save()/load(): seekable or not, starting
+    at an arbitrary offset, optionally failing (OSError ENOSPC) on its k-th write."""
+
+    def __init__(self, seekable=True, offset=0, fail_at=None, data=b""):
+        import io
+
+        self._b = io.BytesIO(b"\0" * offset + data)
+        self._b.seek(offset)
+        self._seekable = seekable
+        self.fail_at = fail_at
+        self.writes = 0
+        self.closed = False
+        self.fired = False
+
+    def write(self, b):
+        self.writes += 1
+        if self.fail_at is not None and self.writes >= self.fail_at:
+            self.fired = True
+            import errno
+
+            raise OSError(errno.ENOSPC, "No space left on device (injected)")
+        return self._b.write(b)
+
+    def read(self, n=-1):
+        return self._b.read(n)
+
+    def readinto(self, b):
+        return self._b.readinto(b)
+
+    def readline(self, n=-1):
+        return self._b.readline(n)
+
+    def seekable(self):
+        return self._seekable
+
+    def readable(self):
+        return True
+
+    def writable(self):
+        return True
+
+    def seek(self, pos, whence=0):
+        if not self._seekable:
+            import io
+
+            raise io.UnsupportedOperation("underlying stream is not seekable")
+        return self._b.seek(pos, whence)
+
+    def tell(self):
+        if not self._seekable:
+            import io
+
+            raise io.UnsupportedOperation("underlying stream is not seekable")
+        return self._b.tell()
+
+    def flush(self):
+        pass
+
+    def close(self):
+        self.closed = True
+
+    def getvalue(self):
+        return self._b.getvalue()
+
+
 class Outcome:
-    __slots__ = ("status", "exc", "msg", "expected_fail", "fault")
+    __slots__ = ("status", "exc", "msg", "expected_fail", "fault", "propagate")
 
     def __init__(self, status, exc=None, msg="", expected_fail=False, fault=None):
         self.status = status  # ok | skip | fail (expected) | unexp (raised where the model expected success) | nofail
@@ -60,6 +126,7 @@ class Outcome:
         self.msg = msg
         self.expected_fail = expected_fail
         self.fault = fault
+        self.propagate = None
 
     def cls(self):
         if self.status in ("ok", "skip", "nofail"):
@@ -116,6 +183,13 @@ class Violation(Exception):
     pass
 
 
+class BodyRaise(Exception):
+    """raised inside scope bodies by the interpreter (S5)"""
+
+    def __init__(self, levels):
+        self.levels = levels
+
+
 class HarnessError(Exception):
     pass
 
@@ -159,6 +233,8 @@ class World:
         self.tol_dtype = np.float16 if "f2" in dts else (np.float32 if "f4" in dts else np.float64)
         self.need_discovery = any(getattr(o, "needs_ops", False) for o in self.obs)
         self.last_backward = None
+        self.last_inplace = None
+        self.last_load = None
         self.checkpoints = []
         self.grad_read_errors = []
         self.failed_events = []  # id(ev) of statements that raised (expected or not)
@@ -290,6 +366,7 @@ class World:
                     self.count("fault.kernel")
         if out is None:
             out = Outcome("ok")
+        prop_exc = getattr(out, "propagate", None)
         self.trace.append((k, out.cls()))
         if out.status in ("fail", "unexp") and k != "write":
             self.failed_events.append(id(ev))
@@ -301,12 +378,17 @@ class World:
             self.discover()
         for o in self.obs:
             o.after(self, ev, out)
-        self.h_update(k, out.cls())
+        self.h_update(k, out.cls(), self.tracking, self.guard)
+        if prop_exc is not None:
+            raise prop_exc
         return out
 
     def run(self, events):
         for ev in events:
-            self.step(ev)
+            try:
+                self.step(ev)
+            except BodyRaise:
+                pass  # (cannot happen: levels are capped to the enclosing depth)
             if self.violations and self.cfg.get("stop_on_violation", True):
                 break
         if not self.violations or not self.cfg.get("stop_on_violation", True):
@@ -711,8 +793,9 @@ class World:
         if fam is not None and src_h is not None:
             si = self.info[src_h]
             i.chain_const = si.chain_const or (si.ids is not None and si.const)
-        if fam is not None and src_h is not None and self.info[src_h].orig_w is False:
+        if src_h is not None and self.info[src_h].orig_w is False and sout.size and np.shares_memory(sout, self.S[src_h]):
             i.made_by = self.info[src_h].made_by  # a view of a natively read-only array: same root cause
+            i.orig_w = False
         if not self.tracking:
             # physically a view but unknown to MyGrad: excluded from C04 judgement
             if od.view_capable and src_h is not None and sout.size > 0 and np.shares_memory(sout, self.S[src_h]):
@@ -822,6 +905,10 @@ class World:
         self._mark_entered(refs)
         # ---- M1
         apply_np(st)
+        self.last_inplace = {"tgt": h, "same_object": True, "value_ok": None}
+        if not self.tracking:
+            d = self.T[h].data
+            self.last_inplace["value_ok"] = bool(d.shape == st.shape and d.dtype == st.dtype and np.array_equal(d, st, equal_nan=True))
         # ---- M2
         if self.tracking:
             self._tape_inplace(h, ev, refs, idx, mask)
@@ -843,7 +930,9 @@ class World:
         old = info.nid
         form = ev["form"]
         nids = [self.nid_of(r) for r in refs]
-        const = info.const
+        # the mutation is a mutation of the family's memory: whether it transmits gradient is
+        # decided by the owner's flag (the public flags of all members are unchanged)
+        const = tp.nodes[fam.owner_nid].const
         try:
             if form == "setitem":
                 new = tp.apply("setitem", [old, nids[0]], {"index": idx}, const)
@@ -1358,16 +1447,13 @@ class World:
         self._exit_model()
 
     def ev_scope(self, ev):
-        """{"k":"scope","mgr":..,"style":"with"|"deco","body":[...],"raise":bool}
-        the body is executed recursively inside a real with-block / decorated function; if "raise"
-        an exception is raised at the end of the body and caught just outside this scope."""
+        """{"k":"scope","mgr":..,"style":"with"|"deco","body":[...]}; the body runs recursively inside
+        a real with-block / decorated function.  A {"k":"raise","levels":n} statement in a body
+        raises an exception that unwinds n+1 enclosing scopes before it is caught (S5)."""
         name = ev["mgr"]
         m = self.MGRS[name]()
         body = ev.get("body", [])
         world = self
-
-        class _BodyRaise(Exception):
-            pass
 
         def run_body():
             world._enter_model(name)
@@ -1379,20 +1465,35 @@ class World:
                     break
             if ev.get("raise"):
                 world.count("fault.body_exception")
-                raise _BodyRaise()
+                raise BodyRaise(0)
 
+        caught = None
         try:
             if ev.get("style") == "deco":
                 m(run_body)()
             else:
                 with m:
                     run_body()
-        except _BodyRaise:
-            pass
+        except BodyRaise as e:
+            caught = e
         self._exit_model()
         for o in self.obs:
-            o.scope_event(self, "exit", name)
-        return Outcome("ok")
+            o.scope_event(self, "exit_exc" if caught is not None else "exit", name)
+        out = Outcome("ok")
+        if caught is not None:
+            self.probe("c15.exceptional_exit")
+            if caught.levels > 0:
+                caught.levels -= 1
+                out.propagate = caught
+        return out
+
+    def ev_raise(self, ev):
+        if not self.scope_stack:
+            return self._skip("noscope")
+        self.count("fault.body_exception")
+        out = Outcome("ok")
+        out.propagate = BodyRaise(min(int(ev.get("levels", 0)), len(self.scope_stack) - 1))
+        return out
 
     def ev_toggle(self, ev):
         if ev["on"]:
@@ -1402,6 +1503,83 @@ class World:
         self.guard = bool(ev["on"])
         for o in self.obs:
             o.scope_event(self, "toggle", ev["on"])
+        return Outcome("ok")
+
+    # ------------------------------------------------------------------ save / load (S6)
+    def _scratch(self):
+        if self._tmpdir is None:
+            import tempfile
+
+            self._tmpdir = tempfile.mkdtemp(prefix="mgsim-io-")
+        return self._tmpdir
+
+    def ev_save(self, ev):
+        h, fid = ev["src"], ev["id"]
+        if h not in self.T:
+            return self._skip("ref")
+        sink = ev["sink"]
+        t = self.T[h]
+        g = self.read_grad(t, h)
+        snap = {
+            "data": np.array(t.data, copy=True),
+            "grad": None if g is None else np.array(g, copy=True),
+            "grad_dtype": None if g is None else np.asarray(g).dtype,
+            "shape": t.shape,
+            "dtype": t.dtype,
+            "constant": bool(t.constant),
+            "tracking": self.tracking,
+        }
+        del g
+        try:
+            if sink["kind"] == "path":
+                import os
+                import pathlib
+
+                pth = os.path.join(self._scratch(), f"t{fid}.npz")
+                mg.save(pathlib.Path(pth) if sink.get("as") == "Path" else pth, t)
+                self.files[fid] = {"kind": "path", "path": pth, "as": sink.get("as"), "snap": snap}
+            else:
+                f = SimFile(seekable=sink.get("seekable", True), offset=sink.get("offset", 0), fail_at=sink.get("fail_at"))
+                try:
+                    mg.save(f, t)
+                finally:
+                    if f.fired:
+                        self.count("fault.file_write_error")
+                self.files[fid] = {"kind": "simfile", "bytes": f.getvalue(), "offset": sink.get("offset", 0), "snap": snap}
+        except OSError as e:
+            del t
+            return Outcome("fail", type(e).__name__, str(e)[:100], expected_fail=True, fault="file_write")
+        except Exception as e:
+            del t
+            return Outcome("unexp", type(e).__name__, str(e)[:200])
+        del t
+        self.probe("c18.saved." + sink["kind"])
+        return Outcome("ok")
+
+    def ev_load(self, ev):
+        h, fid = ev["out"], ev["id"]
+        if h in self.T or fid not in self.files:
+            return self._skip("ref")
+        rec = self.files[fid]
+        try:
+            if rec["kind"] == "path":
+                import pathlib
+
+                t = mg.load(pathlib.Path(rec["path"]) if rec.get("as") == "Path" else rec["path"])
+            else:
+                f = SimFile(seekable=True, offset=0, data=rec["bytes"][rec["offset"] :])
+                t = mg.load(f)
+        except Exception as e:
+            return Outcome("unexp", type(e).__name__, str(e)[:200])
+        if not isinstance(t, Tensor):
+            return Outcome("unexp", "NotATensor", "")
+        self.T[h] = t
+        self.S[h] = np.array(rec["snap"]["data"], copy=True)
+        const = bool(t.constant)
+        nid = self.tape.leaf(np.asarray(t.data, dtype=np.float64), const)
+        i = self._new_tinfo(h, t, const, nid, foreign=True)
+        i.made_by = "load"
+        self.last_load = (h, rec["snap"])
         return Outcome("ok")
 
     # ------------------------------------------------------------------ caller writes (F7)
